@@ -15,7 +15,8 @@ let rec int_of_nat = function O -> 0 | S k -> 1 + int_of_nat k
 
 let f_of_q (q : QQ.t) : f = qmk (Conv.z_of_zt (QQ.num q)) (Conv.pos_of_zt (QQ.den q))
 let q_of_f (x : f) : QQ.t = QQ.make (Conv.zt_of_z x.qnum) (Conv.zt_of_pos x.qden)
-let fmt (x : f) = let q = q_of_f x in if ZZ.equal (QQ.den q) ZZ.one then ZZ.to_string (QQ.num q) else ZZ.to_string (QQ.num q) ^ "/" ^ ZZ.to_string (QQ.den q)
+let junk_q = QQ.of_string "987654321/1000003"
+let fmt (x : f) = let q = q_of_f x in if QQ.equal q junk_q then "?" else if ZZ.equal (QQ.den q) ZZ.one then ZZ.to_string (QQ.num q) else ZZ.to_string (QQ.num q) ^ "/" ^ ZZ.to_string (QQ.den q)
 let parse_ext (s : string) : ext =
   if s = "inf" || s = "+inf" then PInf else if s = "-inf" then NInf else Fin (f_of_q (QQ.of_string s))
 let parse_f s = match parse_ext s with Fin q -> q | _ -> failwith ("non-finite scalar where finite expected: " ^ s)
@@ -123,7 +124,7 @@ let dump_result (sv : solver) (st : status) =
   out "refine" (if sv.sv_refine then "1" else "0");
   out "fact_calls" (string_of_int (int_of_nat sv.sv_calls))
 
-let junk : f = f_of_q (QQ.of_string "987654321/1000003")
+let junk : f = f_of_q junk_q
 
 let () =
   let ident = ref false in
